@@ -29,7 +29,7 @@ _p("C05", "CrossHair/z3 bounded exhaustive symbolic execution of the five iterat
 _p("C06", "CrossHair/z3 symbolic execution of each iterator with lazy stop/filter flags and an unbounded symbolic maxlevel",
    CH + ". stop(node)/filter_(node) answers are fresh solver Booleans created when the real code asks; maxlevel is None or a z3 Int with no bound.",
    "one path = (shape, start, maxlevel region, answers of stop/filter actually asked); non-trivial = >= 2 admitted nodes; distinct = distinct decision tuples",
-   "trees with <= 4 nodes, every start node, every stop set and filter set, maxlevel None or any integer; 5 iterators",
+   "trees with <= 4 nodes and every start node, trees with 5 nodes from the root; every stop set and filter set, maxlevel None or any integer; 5 iterators",
    "trees with <= 5 nodes (<= 6 for PreOrderIter from the root), same",
    ["impure predicates (results depending on call count)", "trees beyond the bound"],
    COMMON_ASSUME + ["stop/filter are pure per node (memoised per path)"])
@@ -195,10 +195,15 @@ def obligations(prop, tier):
     q = tier == "quick"
     out = []
     if prop == "C05":
+        out.append(dict(name="order_once_sameset_eq", module="harness.iters", body="c05_body", cfg={"N": 4 if q else 5, "cls": "eq"}, depth=3, bounds="N<=%d, node class whose instances all compare equal and are falsy" % (4 if q else 5),
+                        picked="n, parent vector, start, consume", symbolic="-"))
         out.append(dict(name="order_once_sameset", module="harness.iters", body="c05_body", cfg={"N": 5 if q else 7}, depth=3 if q else 5,
                         bounds="N<=%d" % (5 if q else 7), picked="n, parent vector, start, consume", symbolic="-"))
     elif prop == "C06":
         for it in ("pre", "post", "level", "group", "zigzag"):
+            if q:
+                out.append(dict(name="restrict5root_" + it, module="harness.iters", body="c06_body", cfg={"iter": it, "N": 5, "exactN": True, "starts": False}, depth=4,
+                                bounds="N=5, start at the root", picked="parent vector", symbolic="maxlevel (unbounded int), stop/filter answers"))
             out.append(dict(name="restrict_" + it, module="harness.iters", body="c06_body", cfg={"iter": it, "N": 4 if q else 5}, depth=4 if q else 5,
                             bounds="N<=%d" % (4 if q else 5), picked="n, parent vector, start", symbolic="maxlevel (unbounded int), stop/filter answers"))
     elif prop == "C01":
@@ -241,6 +246,8 @@ def obligations(prop, tier):
     elif prop == "C18":
         N = 3 if q else 4
         out.append(_mut("lockstep", "c18_body", {"N": N, "L": 3, "faults": "all", "F": 1}, depth=5 if q else 7, bounds="N<=%d F<=1|persistent" % N))
+        out.append(_mut("lockstep_valuesem", "c18_body", {"N": N, "L": 2, "faults": "none", "mixcls": "mixin_eq", "lightcls": "light_eq"}, depth=5,
+                        bounds="N<=%d, no faults, node classes whose instances all compare equal, are empty and falsy" % N))
     elif prop == "C04":
         out.append(dict(name="nav_mixin_eq", module="harness.navigate", body="c04_body", cfg={"cls": "mixin_eq", "N": 4 if q else 5, "move": False}, depth=4, bounds="N<=%d, all-equal node class" % (4 if q else 5),
                         picked="n, parent vector (forest)", symbolic="-"))
@@ -251,6 +258,8 @@ def obligations(prop, tier):
             out.append(dict(name="nav_%s" % cls, module="harness.navigate", body="c04_body", cfg={"cls": cls, "N": N + 1, "move": False}, depth=4 if q else 5,
                             bounds="N<=%d" % (N + 1), picked="n, parent vector (forest)", symbolic="-"))
     elif prop == "C15":
+        out.append(dict(name="walk_after_move", module="harness.navigate", body="c15_move_body", cfg={"cls": "mixin", "N": 4 if q else 5}, depth=4, bounds="N<=%d: walk, one parent= anywhere, same walk again" % (4 if q else 5),
+                        picked="n, parent vector (forest), start, end, moved node, new parent", symbolic="-"))
         out.append(dict(name="walk_mixin_eq", module="harness.navigate", body="c15_body", cfg={"cls": "mixin_eq", "N": 4 if q else 5}, depth=4, bounds="N<=%d, all-equal node class" % (4 if q else 5),
                         picked="n, parent vector (forest), start, end", symbolic="-"))
         for cls in ("mixin", "light"):
